@@ -330,6 +330,7 @@ class _EnvJudge:
     def run(self):
         import time
 
+        import jax
 
         ctx, env, plan = self.ctx, self.env, self.plan
         t0 = time.time()
@@ -352,6 +353,8 @@ class _EnvJudge:
                 ctx.inconc(f"{self.label}/{fn}: harness exception {type(ex).__name__}: {str(ex)[:300]} "
                            f"{traceback.format_exc()[-600:]}")
             ctx.notes.setdefault("fn_wall_s", {})[f"{self.label}/{fn}"] = round(time.time() - t1, 1)
+            if plan.get("clear_caches"):  # MuJoCo executables are large; the machine is shared
+                jax.clear_caches()
         if plan.get("second_instance"):
             try:
                 self._second_instance(item, N)
@@ -553,8 +556,10 @@ class _EnvJudge:
 
         ctx, env = self.ctx, self.env
         base = env.unwrapped
-        if not hasattr(base, "dt") or "transition" not in self.jf:
-            return
+        import jax
+
+        if not isinstance(getattr(base, "dt", None), jax.Array) or "transition" not in self.jf:
+            return  # (a Python-float dt is a static field: changing it would only recompile)
         env2 = eqx.tree_at(lambda e: e.unwrapped.dt, env, jnp.asarray(base.dt) * 0.5)
         jf = self.jf["transition"]
         for i in [int(x) for x in ctx.rng.permutation(N)[:3]]:
@@ -593,11 +598,11 @@ def _plan(ctx, kind, heavy=False):
         return dict(N=ctx.n(8, 10 if heavy else 14), depth=ctx.n(4, 8), fns=fns, repeat=ctx.n(3, 6), eager=ctx.n(2, 3),
                     eager_heavy=(2 if small else 3), sizes=(1, 2, 7), sizes_heavy=((2, 7) if small else (1, 2, 7)),
                     batches=(1 if small else 2), filter_vmap=7, filter_vmap_jit=True, filter_vmap_heavy=not small,
-                    second_instance=True, closure_jit=2, closure_jit_heavy=False)
+                    second_instance=True, closure_jit=2, closure_jit_heavy=False, clear_caches=True)
     if kind == "g1":
         return dict(N=6, depth=2, fns=["initial", "transition", "observation", "reward", "terminal", "truncate"],
                     repeat=3, eager=2, eager_heavy=0, sizes=(1, 2), sizes_heavy=(2,), batches=1, filter_vmap=0,
-                    second_instance=False, closure_jit=0)
+                    second_instance=False, closure_jit=0, clear_caches=True)
     raise ValueError(kind)
 
 
@@ -772,7 +777,9 @@ def _chaotic(ctx, single, env, pol, ss_e, cb, key_e, out_e):
 
     for _ in range(3):
         pol_p = _perturb_floats(ctx.rng, pol)
-        ss_p = eqx.tree_at(lambda s: s.env_state, ss_e, _perturb_floats(ctx.rng, ss_e.env_state))
+        ss_p = ss_e
+        if hasattr(ss_e, "env_state"):
+            ss_p = eqx.tree_at(lambda s: s.env_state, ss_e, _perturb_floats(ctx.rng, ss_e.env_state))
         try:
             out_p = single(env, pol_p, ss_p, cb, key_e)
         except Exception:
@@ -1404,6 +1411,33 @@ def u_coll_realenv(ctx):
                 ctx.monitor("realenv_rollouts_with_episode_end")
 
     _guard(ctx, "realenv", one, len(configs))
+
+    # ---- DQN.iteration (its own copy of the vectorised collection): identical start states, own key per env.
+    # Discrete actions can coincide by chance, so the continuous CartPole observations over 64 steps decide:
+    # identical streams need 64 coinciding epsilon-greedy draws (< 0.75^64 = 1e-8) and identical restart draws.
+    def dqn_keys(j):
+        import jax
+        from jax import numpy as jnp
+
+        E, S, ls = [3, 2][j % 2], 64, 2
+        env = cc.CartPole()
+        algo = DQN(buffer_size=(ls + S + 2) * E, learning_starts=ls, num_envs=E, num_steps=S, batch_size=2)
+        pol = MLPQPolicy(env, key=ctx.key(800 + j), width_size=8, epsilon=0.5)
+        cb = algo.consolidate_callbacks(None)
+        st = eqx.filter_jit(lambda k: algo.reset(env, pol, key=k, callback=cb))(ctx.key(4000 + j))
+        same = jax.tree.map(lambda x: jnp.broadcast_to(x[:1], x.shape) if isinstance(x, jax.Array) else x, st.step_state)
+        st = eqx.tree_at(lambda s: s.step_state, st, same)
+        st2 = eqx.filter_jit(lambda s, k: algo.iteration(s, key=k, callback=cb))(st, ctx.key(4500 + j))
+        obs = np.asarray(st2.step_state.buffer.next_observations)[:, ls:ls + S]
+        ctx.monitor("key_independence_checks")
+        ctx.case({"check": "distinct-keys-iteration", "algo": "DQN", "E": E, "j": j, "h": _digest(obs)}, nontrivial=True,
+                 cls="realenv/DQN-iteration-distinct-keys")
+        if _pairwise_identical(obs):
+            ctx.violation("iteration-gives-parallel-envs-the-same-key", {"algo": "DQN", "E": E,
+                                                                         "identical_env_pairs": _pairwise_identical(obs)})
+
+    _guard(ctx, "realenv-dqn-keys", dqn_keys, ctx.n(1, 2))
+    ctx.require("key_independence_checks", 3)
     ctx.require("twin_streams_compared", 8)
     ctx.require("twin_streams_distinct_from_a_neighbour", 8)
     ctx.require("realenv_rollouts_with_episode_end", 2)
